@@ -95,8 +95,8 @@ func init() {
 
 func init() {
 	register("C11", []string{"./..."}, func(p *Prog, r *Report) {
-		r.Engines = []string{"determinism(DET-MAPRANGE,DET-GLOBAL,DET-SOURCE)", "pooluaf(POOL-UAF)"}
-		r.Explanation = "Static analysis of all compile-time code (packages frontend/..., std/..., constraint/..., internal/... except stats/generator/tests). Decided: (DET-MAPRANGE) no `range` over a map has an order-sensitive effect in its body — a call that can reach a mutator of the constraint system / builder / gadget state in the restricted call graph, an append to a slice that outlives the loop and is not sorted, a write to an output stream, a channel send, or a return of a value taken from the current entry — except the reviewed entries of rules/determinism.json; (DET-GLOBAL) code reachable from frontend.Compile and from every exported function of frontend/... and std/... does not store to, map-update, call a mutating method on, or leak the address of a package-level variable, except the reviewed lock-guarded registries; (DET-SOURCE) the same code calls no clock / random / process-id / reflect map-order source and starts no goroutine, except reviewed entries; (POOL-UAF) every object that compile-time code hands back to a shared pool (sync.Pool.Put / putBuffer) is neither used after the release nor escapes the releasing function (returned, stored, retained by a callee), so concurrent compilations cannot see each other's buffers. NOT decided: byte equality across processes in general (only the absence of the enumerated nondeterminism sources), determinism of third-party encoders."
+		r.Engines = []string{"determinism(DET-MAPRANGE,DET-GLOBAL,DET-SOURCE)", "pooluaf(POOL-UAF)", "statereset(STATE-RESET)"}
+		r.Explanation = "Static analysis of all compile-time code (packages frontend/..., std/..., constraint/..., internal/... except stats/generator/tests). Decided: (DET-MAPRANGE) no `range` over a map has an order-sensitive effect in its body — a call that can reach a mutator of the constraint system / builder / gadget state in the restricted call graph, an append to a slice that outlives the loop and is not sorted, a write to an output stream, a channel send, or a return of a value taken from the current entry — except the reviewed entries of rules/determinism.json; (DET-GLOBAL) code reachable from frontend.Compile and from every exported function of frontend/... and std/... does not store to, map-update, call a mutating method on, or leak the address of a package-level variable, except the reviewed lock-guarded registries; (DET-SOURCE) the same code calls no clock / random / process-id / reflect map-order source and starts no goroutine, except reviewed entries; (POOL-UAF) every object that compile-time code hands back to a shared pool (sync.Pool.Put / putBuffer) is neither used after the release nor escapes the releasing function (returned, stored, retained by a callee), so concurrent compilations cannot see each other's buffers; (STATE-RESET) every Element field on which a deferred emulated-arithmetic check caches its evaluation (the flag set by evalWithChallenge in evalRound1/2) is cleared by that check's cleanEvaluations, so nothing cached on the user's circuit value survives into the next compilation. NOT decided: byte equality across processes in general (only the absence of the enumerated nondeterminism sources), determinism of third-party encoders."
 		r.RuleText = "one obligation per map-range site in scope, per use of a package-level variable by compile-reachable code, per nondeterminism-source call; nontrivial = needed a reviewed reason; trivial = no order-sensitive effect found"
 		r.Assumptions = []string{"call graph: static callees + class-hierarchy edges on gnark-declared interfaces + signature-matched edges for function values; foreign interface methods are leaves", "builder-state types listed in determinism.go (constraint.System, per-curve system, CoeffTable, r1cs/scs builder, kvstore, multicommitter, commitChecker, emulated.Field, lookup tables)"}
 		de, err := newDetEngine(p)
@@ -110,6 +110,8 @@ func init() {
 		de.RunGlobals(r, "DET-GLOBAL", scope)
 		de.RunSources(r, "DET-SOURCE", scope)
 		RunPoolUAF(p, r, compileScopePkg)
+		RunStateReset(p, r)
+		r.RequireMin("STATE-RESET", 9)
 		r.RequireMin("POOL-UAF", 3)
 		r.RequireMin("DET-MAPRANGE", 20)
 	})
